@@ -154,10 +154,10 @@ SHAPES = {
     'YEARLY': ['', 'mon', 'mon+md', 'md', 'dow', 'dow+mon', 'ord+mon', 'ord', 'yd', 'wk+dow', 'mon+md+dow'],
     'MONTHLY': ['', 'md', 'negmd', 'dow', 'ord', 'mon', 'dow+md', 'dow+pos', 'mon+md', 'ord+mon'],
     'WEEKLY': ['', 'dow', 'dow+mon', 'mon'],
-    'DAILY': ['', 'dow', 'mon', 'md', 'mon+md', 'dow+mon'],
-    'HOURLY': ['', 'dow', 'mon', 'md'],
-    'MINUTELY': ['', 'dow', 'md'],
-    'SECONDLY': ['', 'mon'],
+    'DAILY': ['', 'dow', 'mon', 'md', 'mon+md', 'dow+mon', 'dow+md'],
+    'HOURLY': ['', 'dow', 'mon', 'md', 'yd', 'dow+md'],
+    'MINUTELY': ['', 'dow', 'md', 'yd'],
+    'SECONDLY': ['', 'mon', 'md', 'yd'],
 }
 INTERS = [1, 1, 1, 2, 3, 4, 5, 7, 10, 12, 13, 24, 30, 60, 90]
 COUNTS = [1, 2, 3, 5, 10, 62, 63, 64, 65, 126, 127, 128, 200]
